@@ -12,6 +12,9 @@ def one(c):
     P = c['params']; t = c['t']
     s = Sedov(**P)
     j = P['geometry']; om = P.get('omega', 0.0); g = P['gamma']
+    if c.get('t_before'):
+        # the same solver object has been used at another time before ("at every time" holds for an object that is evaluated repeatedly)
+        s(np.array([0.3, 0.9]), c['t_before'])
     probe = s(np.array([1.0]), t)
     r2 = float(s.r2)
     S = 1.0 if j == 1 else (2 * math.pi if j == 2 else 4 * math.pi)
@@ -59,8 +62,8 @@ def r4(rng, lo, hi):
 def cases(rng, n):
     out = []
     for _ in range(n):
-        for kind in ('standard', 'standard0', 'vacuum', 'singular', 'omega2', 'omega3'):
-            j = rng.choice([1, 2, 3])
+        for kind in ('standard', 'standard0', 'vacuum', 'singular', 'omega2', 'omega3', 'near_singular', 'near_singular'):
+            j = rng.choice([1, 2, 3]) if kind != 'near_singular' else rng.choice([2, 3])
             g = r4(rng, 1.2, 2.4)
             if kind == 'standard0':
                 om = 0.0
@@ -75,13 +78,20 @@ def cases(rng, n):
                 om = r4(rng, oms + 0.05 * (j - oms), oms + 0.6 * (j - oms))
             elif kind == 'singular':
                 om = float('%.5f' % ((3 * j - 2 + g * (2 - j)) / (g + 1)))
+            elif kind == 'near_singular':
+                # close to the singular exponent but not on it: the closed-form singular solution does not apply (its window is |v2 - v*| < 1e-4);
+                # on the unchanged tree these profiles are accurate to 1e-6 in energy on either side
+                om = float('%.5f' % ((3 * j - 2 + g * (2 - j)) / (g + 1) + rng.choice([-1, 1]) * rng.uniform(0.004, 0.016)))
             elif kind == 'omega2':
                 om = float('%.5f' % ((2 * (g - 1) + j) / g))
             else:
                 om = float('%.5f' % (j * (2 - g)))
             if not (0 <= om < j):
                 continue
-            out.append({'kind': kind, 'params': {'geometry': j, 'gamma': g, 'omega': om, 'rho0': r4(rng, 0.3, 3), 'eblast': r4(rng, 0.3, 3)}, 't': r4(rng, 0.2, 3)})
+            case = {'kind': kind, 'params': {'geometry': j, 'gamma': g, 'omega': om, 'rho0': r4(rng, 0.3, 3), 'eblast': r4(rng, 0.3, 3)}, 't': r4(rng, 0.2, 3)}
+            if kind == 'vacuum' or rng.random() < 0.4:
+                case['t_before'] = r4(rng, 0.2, 3)
+            out.append(case)
     return out
 
 
@@ -100,7 +110,9 @@ def classify(c, r):
         v = r[k]
         if abs(v) <= THRESH[k]:
             continue
-        if singular_profile and k != 'ahead' and abs(v) <= LOOSE:
+        if c.get('kind') == 'near_singular' and k == 'E_over_eblast_minus_1':
+            bad[k] = v              # measured 1e-6 on the unchanged tree on both sides of the singular exponent: the loose tolerance does not apply
+        elif singular_profile and k != 'ahead' and abs(v) <= LOOSE:
             known[k] = v            # either sign: a trapezoid over an integrable singularity sampled on the solver's fixed table over- or undershoots
         elif r.get('origin_singular') and k == 'M_over_M0_minus_1':
             known[k] = v            # density ~ r^-beta at the origin with beta close to 1: the mass integral is not resolvable on the fixed table (seen: +28 %)
